@@ -8,6 +8,6 @@ def run(ctx, res):
     if not ctx.require_roles(res):
         return
     e3.apply(ctx, res, "C05", floor=structural.E3_FLOORS.get("C05"))
-    fn = getattr(structural, "C05".lower(), None)
-    if fn is not None:
-        fn(ctx, res)
+    structural.c05(ctx, res)
+    # "the order reported by iteration": the iterators must walk the list correctly in both directions (C12's structural clauses)
+    structural.c12(ctx, res)
